@@ -1634,6 +1634,24 @@ def _crate_override(ex, recv, trait, meth):
 COPY_BUF = 2     # model buffer capacity of io::copy / read_to_end (the real 8 KiB constant is std-internal)
 
 
+@model(r'<&\[u8\] as (std::io::)?Read>::read')
+def m_slice_read(ex, c, a, m):
+    """Read for &[u8]: copies min(len) bytes and advances the slice"""
+    recv = a[0]
+    v = recv.get() if isinstance(recv, Ref) else recv
+    data = as_S(v)
+    buf = as_S(a[1])
+    n = min(len(buf), len(data))
+    a[1].set(S(tuple(data[:n]) + tuple(buf[n:])))
+    if isinstance(v, SliceRef):
+        nv = SliceRef(v.parent, v.a + n, v.b)
+    else:
+        nv = ValRef(S(data[n:]))
+    if isinstance(recv, Ref):
+        recv.set(nv)
+    return Ok(n)
+
+
 @model(r'std::io::copy::<.+>')
 def m_io_copy(ex, c, a, m):
     """loop over the *real* reader's read and the real writer's write with a small buffer"""
